@@ -8,6 +8,7 @@ pub mod responder;
 pub mod c07;
 pub mod c09;
 pub mod c10;
+pub mod c12;
 pub mod c13;
 pub mod c16;
 pub mod c19;
@@ -21,6 +22,7 @@ pub fn run(id: &str, tier: Tier) -> i32 {
         "C07" => c07::run(tier),
         "C09" => c09::run(tier),
         "C10" => c10::run(tier),
+        "C12" => c12::run(tier),
         "C13" => c13::run(tier),
         "C16" => c16::run(tier),
         "C19" => c19::run(tier),
@@ -40,6 +42,7 @@ pub fn replay(id: &str, file: &Path) -> i32 {
         "C07" => c07::replay(file),
         "C09" => c09::replay(file),
         "C10" => c10::replay(file),
+        "C12" => c12::replay(file),
         "C13" => c13::replay(file),
         "C16" => c16::replay(file),
         "C19" => c19::replay(file),
